@@ -203,7 +203,8 @@ class Ctx:
         for case, v in self.violations:
             kf = known.match(self.prop, case, v)
             if kf is not None:
-                lines.append("KNOWN-FINDING: property=%s %s" % (self.prop, kf.what))
+                if kf.kid not in self.known_hits:
+                    lines.append("KNOWN-FINDING: property=%s %s %s" % (self.prop, kf.kid, kf.what))
                 self.known_hits.append(kf.kid)
                 continue
             nviol += 1
@@ -311,8 +312,9 @@ class KnownFindings:
         key = (verdict.obs or {}).get("kf_key")
         if key is None:
             return None
+        import fnmatch
         for k in self.findings(prop):
-            if k.sig == key:
+            if k.sig == key or (k.sig and any(ch in k.sig for ch in "*?") and fnmatch.fnmatchcase(key, k.sig)):
                 return k
         return None
 
